@@ -47,16 +47,16 @@ func cInt(n int64) cv {
 	}
 	return cv{kind: "nint", u: uint64(-1 - n)}
 }
-func cBstr(b []byte) cv         { return cv{kind: "bstr", b: b} }
-func cTstr(s string) cv         { return cv{kind: "tstr", s: s} }
-func cArr(a ...cv) cv           { return cv{kind: "arr", arr: a} }
-func cMap(m ...ckv) cv          { return cv{kind: "map", m: m} }
-func cTag(n uint64, in cv) cv   { return cv{kind: "tag", u: n, inner: &in} }
-func cBool(b bool) cv           { return cv{kind: "bool", bl: b} }
-func cNull() cv                 { return cv{kind: "null"} }
-func cFloat(f float64) cv       { return cv{kind: "float", f: f} }
-func cRaw(b []byte) cv          { return cv{kind: "raw", b: b} }
-func kv(k, v cv) ckv            { return ckv{k, v} }
+func cBstr(b []byte) cv       { return cv{kind: "bstr", b: b} }
+func cTstr(s string) cv       { return cv{kind: "tstr", s: s} }
+func cArr(a ...cv) cv         { return cv{kind: "arr", arr: a} }
+func cMap(m ...ckv) cv        { return cv{kind: "map", m: m} }
+func cTag(n uint64, in cv) cv { return cv{kind: "tag", u: n, inner: &in} }
+func cBool(b bool) cv         { return cv{kind: "bool", bl: b} }
+func cNull() cv               { return cv{kind: "null"} }
+func cFloat(f float64) cv     { return cv{kind: "float", f: f} }
+func cRaw(b []byte) cv        { return cv{kind: "raw", b: b} }
+func kv(k, v cv) ckv          { return ckv{k, v} }
 
 func head(major byte, n uint64, wide int) []byte {
 	m := major << 5
